@@ -79,11 +79,8 @@ Qed.
 
 Lemma parse_int_literal_nof s : post (parse_int_literal s) (fun _ => True).
 Proof.
-  unfold parse_int_literal. destruct (negb (has_exponent s)).
-  - bstep (int_of_text_nof s). intros z _. exact I.
-  - destruct (split_number s) as [[[[neg ip] fp] ex]|]; [|noof].
-    destruct (Z.leb 400 ex); [noof|]. destruct (_ || _); [noof|].
-    cbv zeta. match goal with |- context [if ?c then _ else _] => destruct c end; noof.
+  destruct (parse_int_literal_cases s) as [->|[->|[->|[z ->]]]]; try noof.
+  bstep (int_of_text_nof s). intros z _. exact I.
 Qed.
 
 Lemma parse_float_literal_nof s : post (parse_float_literal s) (fun _ => True).
